@@ -380,7 +380,10 @@ def execute_tables(p, seed, workdir):
         lines = run.exec_table(binary, uniq, workdir, name)
         t1 = time.time()
         bad, n, ds, gs = run.validate_rows(lines, workdir, name)
-        log("[%s] table %s: %d rows, exec %.1fs, validate %.1fs, %d bad rows" % (p.prop, name, n, t1 - t0, time.time() - t1, len(bad)))
+        tdrift = getattr(run.validate_rows, "last_drift", 0)
+        log("[%s] table %s: %d rows, exec %.1fs, validate %.1fs, %d bad rows, %d rows drifting from the model"
+            % (p.prop, name, n, t1 - t0, time.time() - t1, len(bad), tdrift))
+        execute_tables.drift = getattr(execute_tables, "drift", 0) + tdrift
         for b in bad:
             b["_req"] = uniq[b["row"]]
             b["_build"] = {"batch": batch, "profile": profile}
@@ -508,7 +511,7 @@ def check(prop, tier, seed):
                 "verdict_records_for_other_properties": others,
                 "measured_row_capacity": stat.get("rowcap", 0),
                 "drift_calls_compared_with_driver_layer": stat.get("driftcmp", 0),
-                "drift_events": stat.get("drift", 0),
+                "drift_events": stat.get("drift", 0) + getattr(execute_tables, "drift", 0),
                 "drift_examples": stat.get("_drift", [])[:5],
             },
             "assumptions": p.assumptions + [
@@ -566,5 +569,154 @@ def replay(prop, path):
         shutil.rmtree(workdir, ignore_errors=True)
 
 
+def _corruptions(lines):
+    """mechanical corruptions of a recorded trace: each returns (what, new lines) or None if not applicable"""
+    import copy
+    import re
+    out = []
+    recs = [json.loads(l) for l in lines]
+    calls = [i for i, r in enumerate(recs) if r["k"] == "call"]
+
+    def dump(rs):
+        res = []
+        for r in rs:
+            r = dict(r)
+            k = r.pop("k")
+            rid = r.pop("id")
+            if k == "scn":
+                body = json.dumps(r, separators=(",", ":"))
+                res.append('{"k":"scn","id":%d,%s' % (rid, body[1:]))
+            else:
+                i = r.pop("i")
+                ops = r.pop("ops")
+                body = json.dumps(r, separators=(",", ":"))
+                res.append('{"k":"call","id":%d,"i":%d,%s,"ops":%s}' % (rid, i, body[1:-1], json.dumps(ops, separators=(",", ":"))))
+        return res
+
+    # 1. change one word that the controller interprets: pixel data after a memory-write-start, or a parameter of a
+    #    command the controller decodes (vendor parameters are ignored by the reference decoder, so changing them
+    #    would be a benign corruption)
+    KNOWN = (42, 43, 51, 54, 55, 58)
+
+    def significant(ops):
+        """indices (op index, position kind) of operations whose payload matters, in order"""
+        res, cur, dc = [], None, None
+        for j, op in enumerate(ops):
+            if op[0] == "dc" and op[-1] == 1:
+                dc = op[1]
+            elif op[0] == "spi" and op[-1] == 1 and op[1]:
+                if dc == 0:
+                    cur = op[1][-1]
+                elif cur == 44 or cur in KNOWN:
+                    res.append((j, 1))
+            elif op[0] == "cmd" and op[-1] == 1:
+                cur = op[1]
+                if op[2] and cur in KNOWN:
+                    res.append((j, 2))
+            elif op[0] == "px" and op[-1] == 1 and op[1] and cur == 44:
+                res.append((j, 1))
+        return res
+
+    for i in reversed(calls):
+        sig = significant(recs[i]["ops"])
+        if sig:
+            j, pos = sig[-1]
+            rs = copy.deepcopy(recs)
+            rs[i]["ops"][j][pos][-1] = (rs[i]["ops"][j][pos][-1] + 36) % 256
+            out.append(("one pixel / parameter word changed in call %d" % recs[i]["i"], dump(rs)))
+            break
+    else:
+        for i in reversed(calls):
+            ops = recs[i]["ops"]
+            dj = [j for j, op in enumerate(ops) if op[0] == "d" and op[-1] == 1]
+            if dj:
+                rs = copy.deepcopy(recs)
+                rs[i]["ops"][dj[-1]][2] = 1 - rs[i]["ops"][dj[-1]][2]
+                out.append(("one data-pin level changed in call %d" % recs[i]["i"], dump(rs)))
+                break
+    # 2. remove one bus operation whose payload the controller interprets (see above)
+    for i in reversed(calls):
+        sig = significant(recs[i]["ops"])
+        if sig:
+            rs = copy.deepcopy(recs)
+            del rs[i]["ops"][sig[-1][0]]
+            out.append(("one bus operation removed from call %d" % recs[i]["i"], dump(rs)))
+            break
+    # 3. a result changed
+    for i in reversed(calls):
+        if recs[i]["res"] == "ok":
+            rs = copy.deepcopy(recs)
+            rs[i]["res"] = "panic"
+            rs[i]["pmsg"] = "selftest"
+            out.append(("result of call %d changed to panic" % recs[i]["i"], dump(rs)))
+            break
+    return out
+
+
 def selftest(prop, seed):
-    raise ToolError("selftest not implemented yet")
+    """Binding demonstration: record a few scenarios of this property's families on the real code, corrupt the
+    recording mechanically (one data word, one removed bus operation, one result) and require the trace
+    specification to reject every corrupted trace while accepting the original."""
+    p = plan_for(prop, "quick", seed)
+    workdir = os.path.join(run.WORK, "selftest.%s.%d" % (prop, os.getpid()))
+    results = []
+    try:
+        ids = gen.Ids()
+        for (name, batch, profile, g) in [f for f in p.families if "sequences" not in f[0] and "smallalpha" not in f[0]][:3]:
+            rng = random.Random("%d/%s/%s" % (seed, p.prop, name))
+            scs = g(ids, rng)
+            if isinstance(scs, dict):
+                scs = scs["bases"]
+            scs = [{k: v for k, v in sc.items() if not k.startswith("_")} for sc in scs[:40:8]]
+            if not scs:
+                continue
+            binary = run.build_harness(batch, profile)
+            lines = run.exec_scenarios(binary, scs, workdir, "st")
+            v0, st0, _, _ = run.validate_traces(lines, workdir, "st-orig", shards=1)
+            groups, cur = [], []
+            for ln in lines:
+                if ln.startswith('{"k":"scn"'):
+                    cur = [ln]
+                    groups.append(cur)
+                else:
+                    cur.append(ln)
+            for gi, gl in enumerate(groups):
+                for what, newlines in _corruptions(gl):
+                    v, st, _, _ = run.validate_traces(newlines, workdir, "st-c", shards=1)
+                    rejected = len(v) > len([x for x in v0 if x["id"] == json.loads(gl[0])["id"]]) or st.get("drift", 0) > 0
+                    results.append({"family": name, "scenario": json.loads(gl[0])["id"], "corruption": what, "rejected": rejected})
+            results.append({"family": name, "original_verdict_records": len(v0)})
+        for (name, batch, profile, g) in p.tables[:1]:
+            rng = random.Random("%d/%s/%s" % (seed, p.prop, name))
+            reqs = g(rng)[:400:7]
+            binary = run.build_harness(batch, profile)
+            lines = run.exec_table(binary, reqs, workdir, "st")
+            bad0, _, _, _ = run.validate_rows(lines, workdir, "st-orig")
+            import re
+            corrupted, n = [], 0
+            for ln in lines:
+                r = json.loads(ln)
+                txt = json.dumps(r["out"], separators=(",", ":"))
+                m = re.search(r"\d+", txt)
+                if m and n < 25:
+                    val = int(m.group(0))
+                    txt2 = txt[:m.start()] + str((val + 1) % 251 if val < 256 else val + 1) + txt[m.end():]
+                    r["out"] = json.loads(txt2)
+                    n += 1
+                    body = json.dumps({k: v for k, v in r.items() if k != "k"}, separators=(",", ":"))
+                    corrupted.append('{"k":"fn",' + body[1:])
+            bad, _, _, _ = run.validate_rows(corrupted, workdir, "st-c")
+            dr = getattr(run.validate_rows, "last_drift", 0)
+            results.append({"table": name, "rows_corrupted_in_first_number": n, "rejected": len(bad) + dr,
+                            "rejected_as_violation": len(bad), "rejected_as_drift_from_the_model": dr, "original_bad_rows": len(bad0)})
+        ok = all(r.get("rejected", True) is not False for r in results) and all(
+            r.get("rejected", 1) >= r.get("rows_corrupted_in_first_number", 0) * 0.8 for r in results if "table" in r)
+        os.makedirs(os.path.join(VERIF, "selftest"), exist_ok=True)
+        with open(os.path.join(VERIF, "selftest", "%s.json" % prop), "w") as f:
+            json.dump({"property": prop, "seed": seed, "all_corruptions_rejected": ok, "results": results}, f, indent=1)
+        for r in results:
+            print(json.dumps(r))
+        print("SELFTEST %s: %s" % (prop, "every corrupted recording was rejected" if ok else "SOME CORRUPTED RECORDINGS WERE ACCEPTED"))
+        return 0 if ok else 2
+    finally:
+        shutil.rmtree(workdir, ignore_errors=True)
